@@ -19,6 +19,10 @@
   * `Loader.lean` about the GENERATED `load_atomic_gaussian_params`: `loader_gen_eq_model` (bridge),
                  `load_every_element`, `load_normalises`, `load_unknown_rejected`, `load_type_error`,
                  `load_cache_independent`, `load_unreadable_file`
+  * `Translate.lean` (round 3) about the GENERATED `coulomb_potential`: `dist3_translate`,
+                 `potential_translation_invariant`, `potential_translation_invariant_arrays` (common shift of
+                 points and centres), `potential_no_centres`, `potential_zero_coefficients`,
+                 `potential_coincident_centres`, `potential_at_centre`
   Closed forms, multi-centre routine, loader and table are regenerated from `/repo`
   (`Gen/Coulomb.lean`, `Gen/CoulombPotential.lean`, `Gen/CoulombLoader.lean`,
   `Gen/CoulombParams.lean`) on every run; `erf` is `realErf` (its integral).
@@ -29,3 +33,4 @@ import GridVerif.Props.C17.Multi
 import GridVerif.Props.C17.MultiGen
 import GridVerif.Props.C17.Table
 import GridVerif.Props.C17.Loader
+import GridVerif.Props.C17.Translate
